@@ -331,6 +331,13 @@ where
     where
         Sq: Data<Elem = Sd::Elem>,
     {
+        // `Zip` checks the first axis only; the remaining axes are checked by the strategy,
+        // which is never called when `xs` is empty
+        if buffer.shape().get(1..) != self.data.shape().get(1..) {
+            let expect = self.data.shape().get(1..);
+            let got = buffer.shape().get(1..);
+            panic!("buffer has the wrong shape. expected trailing axes: {expect:?}, got: {got:?}")
+        }
         Zip::from(xs)
             .and(buffer.axis_iter_mut(Axis(0)))
             .fold_while(Ok(()), |_, &x, buf| {
